@@ -7,6 +7,7 @@ import (
 	"crypto/sha256"
 	"encoding/hex"
 	"fmt"
+	"math"
 	"math/big"
 	"os"
 	"os/exec"
@@ -114,6 +115,8 @@ func eqHeader(src, dec map[any]any) bool {
 	}
 	a, e1 := refcose.GoToNode(src, gen.Custom)
 	b, e2 := refcose.GoToNode(dec, gen.Custom)
+	widenFloats(a)
+	widenFloats(b)
 	ok := e1 == nil && e2 == nil && bytes.Equal(refcbor.Canon(a), refcbor.Canon(b))
 	if !ok && eqHeaderDebug {
 		fmt.Printf("eqHeader: e1=%v e2=%v\n", e1, e2)
@@ -560,6 +563,17 @@ func c08cases(seed int64, i int, keys *gen.KeyRing) []c08case {
 		}
 		again, err := d.MarshalCBOR()
 		if err != nil || !bytes.Equal(again, out) {
+			// (the one legitimate difference: a Go float32 parameter is written with single precision and
+			//  comes back from the decoder as a float64, which is written with double precision)
+			n1, e1 := refcbor.Parse(out)
+			n2, e2 := refcbor.Parse(again)
+			if err == nil && e1 == nil && e2 == nil {
+				widenFloats(n1)
+				widenFloats(n2)
+				if bytes.Equal(refcbor.Encode(n1), refcbor.Encode(n2)) {
+					return ""
+				}
+			}
 			return "decoded key does not re-encode to the same bytes"
 		}
 		return ""
@@ -914,4 +928,25 @@ func boundaryClass2(n int) string {
 		return fmt.Sprint(n)
 	}
 	return "other"
+}
+
+// widenFloats rewrites single-precision float nodes as double precision: equivalence of header values
+// is a value comparison (a Go float32 comes back from the decoder as float64).
+func widenFloats(n *Node) {
+	if n == nil {
+		return
+	}
+	if n.Raw != nil {
+		// retained raw bytes of a nested layer: compare them as values too
+		if p, err := refcbor.Parse(n.Raw); err == nil {
+			*n = *p
+			n.Raw = nil
+		}
+	}
+	if n.Major == refcbor.Prim && n.Width == 5 {
+		n.Arg, n.Width = math.Float64bits(float64(math.Float32frombits(uint32(n.Arg)))), 9
+	}
+	for _, k := range n.Kids {
+		widenFloats(k)
+	}
 }
